@@ -216,10 +216,51 @@ def _stdlib_cases(heavy: bool) -> st.SearchStrategy:
     return cases()
 
 
+def _stable_member(r: Any) -> Any:
+    """A member of a set / key of a dict must not be hashed by address: the iteration order of the container would differ
+    between any two runs (NaN floats and Decimals hash by id() since Python 3.10, as do objects without ``__hash__``)."""
+    if not isinstance(r, dict):
+        return r
+    k = r.get("k")
+    if k == "float" and r["x"] == "nan":
+        return {"k": "float", "x": (0.5).hex()}
+    if k == "decimal" and "nan" in r["v"].lower():
+        return {"k": "decimal", "v": "0.5"}
+    if k == "complex" and "nan" in (r["re"], r["im"]):
+        return {"k": "complex", "re": (0.5).hex(), "im": (0.0).hex()}
+    if k == "obj" and "__hash__" not in V._all_methods(r["cls"]):
+        return dict(r, cls=dict(r["cls"], m=dict(r["cls"].get("m", {}), __hash__="tag")))
+    if k in ("tuple", "frozenset"):
+        return dict(r, items=[_stable_member(x) for x in r["items"]])
+    return r
+
+
+def _stabilise(r: Any) -> Any:
+    """Rewrite a recipe (recursively) so that no set member / dict key is hashed by address."""
+    if isinstance(r, list):
+        return [_stabilise(x) for x in r]
+    if not isinstance(r, dict):
+        return r
+    k = r.get("k")
+    if k in ("set", "frozenset"):
+        return dict(r, items=[_stable_member(_stabilise(x)) for x in r["items"]])
+    if k == "dict":
+        return dict(r, items=[[_stable_member(_stabilise(a)), _stabilise(b)] for a, b in r["items"]])
+    return {key: _stabilise(val) for key, val in r.items()}
+
+
+def _stabilise_case(case: dict[str, Any]) -> dict[str, Any]:
+    for call in case["calls"]:
+        for key in ("args", "init"):
+            if key in call:
+                call[key] = [_stabilise(a) for a in call[key]]
+    return case
+
+
 def strategy(ctx) -> st.SearchStrategy:
     pg = _pygen_cases(ctx.params)
     sl = _stdlib_cases(heavy=ctx.tier != "quick")
-    return V.choice(pg, pg, pg, pg, pg, _tmpl_cases(), _tmpl_cases(), _tmpl_cases(), sl, sl)
+    return V.choice(pg, pg, pg, pg, pg, _tmpl_cases(), _tmpl_cases(), _tmpl_cases(), sl, sl).map(_stabilise_case)
 
 
 # ------------------------------------------------------------------------------------------ evaluation
